@@ -228,15 +228,15 @@ CHECKS.update({
                     dict(name="scen-d13", variant="debug", stage=0, args=["scen", "--which", "d13", "--prop", "C13"], shards=dict(quick=1, thorough=1)),
                     dict(name="c16rc-S", variant="debug", stage=0, args=["rc", "--profile", "c16rc", "--mode", "S", "--prop", "C13", "--relevant", "any_destruct"],
                          shards=dict(quick=10, thorough=16), secs=dict(quick=20, thorough=200)),
-                    choreo_job("C13", "snap_destruct"), d14_job("d14", "C13"), d14_job("d16", "C13"), choreo_job("C13", "weak_dealloc", "c03g")],
-                accept_sig=[r"^C02\|destruct-while-snapshot", r"^C02\|deref-dead", r"^C03\|dealloc-while-weak-snapshot"], rule=RULE_EBR + "a closure was deferred while at least one foreign guard was registered; plus the reference-counting layer on top: c16rc, the late-reader choreography c02g and scenarios d13/d14 (what a pinned thread references must outlive its critical section)",
+                    choreo_job("C13", "snap_destruct"), d14_job("d14", "C13"), d14_job("d16", "C13"), d14_job("d15", "C13"), choreo_job("C13", "weak_dealloc", "c03g")],
+                accept_sig=[r"^C02\|destruct-while-snapshot", r"^C02\|deref-dead", r"^C03\|dealloc-while-weak-snapshot"], rule=RULE_EBR + "a closure was deferred while at least one foreign guard was registered; plus the reference-counting layer on top: c16rc, the late-reader choreography c02g and scenarios d13/d14 (what a pinned thread references must outlive its critical section) and d15 (a guard created by a destructor during a collection and kept beyond it protects what is loaded under it while the thread retires and collects)",
                 accept=["C13"], assumptions=EBR_ASSUME, floor=dict(quick=50, thorough=500)),
-    "C14": dict(jobs=ebr_jobs("c14", "C14") + rc_jobs("c14", "C14", "cascade", s_secs=(8, 60), p_secs=(4, 30), asan=False)[:1] + [d14_job("d14", "C14"), d14_job("d16", "C14")],
+    "C14": dict(jobs=ebr_jobs("c14", "C14") + rc_jobs("c14", "C14", "cascade", s_secs=(8, 60), p_secs=(4, 30), asan=False)[:1] + [d14_job("d14", "C14"), d14_job("d16", "C14"), d14_job("d15", "C14")],
                 rule=RULE_EBR + "the global epoch advanced while a foreign guard was registered (every yield point samples the global epoch, every registered guard's announced epoch and the epoch each live guard was taken at: "
-                     "global - taken must stay in {0,1} for as long as the guard lives); plus scenario d14 (work under an outer guard, see C02)",
+                     "global - taken must stay in {0,1} for as long as the guard lives); plus scenario d14 (work under an outer guard, see C02) and d15 (a guard created by a destructor during a collection and kept beyond it: the global epoch moves at most one step while it lives)",
                 accept=["C14"], assumptions=EBR_ASSUME, floor=dict(quick=50, thorough=500)),
-    "C15": dict(jobs=ebr_jobs("c15", "C15"), rule=RULE_EBR + "at least one closure was deferred (each execution ends with survivor rounds or with dropping the collector and checks every closure's counter == 1; one survivor variant first seals a burst of 20-300 "
-                     "single-closure bags in one epoch, lets three advances pass and then parks a participant inside a critical section: everything deferred before must still run within the bound)",
+    "C15": dict(jobs=ebr_jobs("c15", "C15") + [d14_job("d15", "C15")], accept_sig=[r"^C04\|garbage-not-reclaimed-within-bound", r"^C04\|leak-object-at-end"], rule=RULE_EBR + "at least one closure was deferred (each execution ends with survivor rounds or with dropping the collector and checks every closure's counter == 1; one survivor variant first seals a burst of 20-300 "
+                     "single-closure bags in one epoch, lets three advances pass and then parks a participant inside a critical section: everything deferred before must still run within the bound); plus scenario d15 variant 2: a thread releases a guard that a destructor created during a collection, retires more objects and exits - the surviving thread must see all of them destructed (the reference-counting layer's deferred destructions are deferred functions)",
                 accept=["C15"], assumptions=EBR_ASSUME, floor=dict(quick=50, thorough=500)),
     "C16": dict(jobs=ebr_jobs("c16", "C16", extra=[
                     dict(name="c16-enum", variant="release", stage=0, args=["c16enum", "--len", "{len}"], shards=dict(quick=1, thorough=1)),
